@@ -10,7 +10,7 @@ RULE = ("(a) operation sequences on the collector as in C03, judged by: after ev
         "must be empty after eval returned (and the result, if any, was released once per distinct object); a sample of "
         "the (program, k) pairs is also compared with VM.v's ledger inside Coq. non-trivial = distinct (program, k) "
         "with at least one allocation")
-ASSUMPTIONS = ["ledger_balanced at VM level is carried by the correspondence + audit for the explored programs; the collector-level theorems are proved for all heaps"]
+ASSUMPTIONS = ["ledger_balanced is proved at VM level for the model (every run, every program); for the implementation it is observed through the allocation ledger hook for the explored programs"]
 NOTES = ["proved: run_collects, run_frees_garbage_once, destroy_frees_all, untrace_spec (collector, all heaps / root sets / cyclic graphs)"]
 
 
